@@ -192,9 +192,50 @@ func (r *run) compareAnswer(rq *reqRec, ex *execRec, add func(sig, what string))
 		keep = func(n string) bool { return names[n] }
 	}
 	for _, d := range diffHeaders(multiset(refH, keep), multiset(resp.Hdr, keep)) {
+		if d.Class == "extra" && !harnessHeaderNames()[d.Name] && !r.sc.keepNamed(d.Name) {
+			// A header name that no handler or middleware of this harness ever writes cannot have
+			// leaked from another execution, key or request: the framework added it to the replay
+			// (e.g. a replay marker). The statement demands the execution's kept headers, it does
+			// not forbid additions of the framework's own. Counted, not judged.
+			extraFrameworkHeaders++
+			continue
+		}
 		add("replay-differs|header|"+d.Class+"|"+r.sc.origin(d.Name, d),
 			fmt.Sprintf("%s: kept header %q: execution %v, answer %v", who, d.Name, d.Exec, d.Got))
 	}
+}
+
+var extraFrameworkHeaders int64
+
+var harnessNames map[string]bool
+
+// harnessHeaderNames: every response header name (lower case) that any protected handler, the
+// upstream middleware or the error handler of this harness produces in any case of the run.
+func harnessHeaderNames() map[string]bool {
+	if harnessNames != nil {
+		return harnessNames
+	}
+	m := map[string]bool{"set-cookie": true, "content-type": true}
+	for _, sh := range shapes {
+		for _, x := range sh.hdr(0) {
+			m[lname(x.K)] = true
+		}
+	}
+	for _, x := range upstreamHdr {
+		m[lname(x.K)] = true
+	}
+	harnessNames = m
+	return m
+}
+
+// keepNamed: the name is listed in the configured KeepResponseHeaders.
+func (sc *scenario) keepNamed(name string) bool {
+	for _, k := range sc.Keep {
+		if lname(k) == name {
+			return true
+		}
+	}
+	return false
 }
 
 // checkOwn: a request that ran the handler itself and was answered without error must have
